@@ -9,7 +9,7 @@
 //!   both decoders, re-encode, hash and == return (no panic) for every b.
 use crate::h::*;
 use crate::stubs::{self, G};
-use chia_protocol::{Bytes, Bytes32, BytesImpl, Coin, CoinState, ProofOfSpace, SubEpochData, SubEpochSummary};
+use chia_protocol::{Bytes, Bytes32, BytesImpl, Coin, CoinState, ProofOfSpace, SubEpochData};
 use chia_sha2::Sha256;
 use chia_traits::chia_error::Error;
 use chia_traits::Streamable;
@@ -22,7 +22,22 @@ fn wire<T: Streamable + PartialEq, const N: usize>() -> bool {
 /// symbolic. (A symbolic length prefix makes `Vec::with_capacity` a symbolic-size
 /// allocation, which CBMC does not get through: > 12 GB.)
 fn wire_with<T: Streamable + PartialEq, const N: usize>(prefix: Option<u32>) -> bool {
+    wire_fixed::<T, N>(prefix, &[])
+}
+
+/// `fixed`: byte ranges (inclusive) set to a constant -- the inside of 32-byte hash fields, whose
+/// content no decoder looks at; everything else symbolic
+fn wire_fixed<T: Streamable + PartialEq, const N: usize>(prefix: Option<u32>, fixed: &[(usize, usize)]) -> bool {
     let mut b: [u8; N] = kani::any();
+    let mut r = 0;
+    while r < fixed.len() {
+        let mut i = fixed[r].0;
+        while i <= fixed[r].1 {
+            b[i] = 0x5c;
+            i += 1;
+        }
+        r += 1;
+    }
     if let Some(p) = prefix {
         let pb = p.to_be_bytes();
         b[0] = pb[0];
@@ -145,17 +160,27 @@ wire_inst!(c13t_coin_state_n82, CoinState, 82, 90, true);
 
 // hand-written codecs that pack TWO optionals into one prefix byte (chia_protocol::utils::{parse,
 // stream,update_digest}; values 0..3, anything else rejected): all byte strings of each valid length
+// (the inside of the 32-byte hash fields fixed, every prefix / integer / boundary byte symbolic)
 // SubEpochData: 32 + 1 + Option<u64> + shared(Option<u64>, Option<Bytes32>)
-wire_inst!(c13_sub_epoch_data_n35, SubEpochData, 35, 50, true);
-wire_inst!(c13_sub_epoch_data_n43, SubEpochData, 43, 60, true);
-wire_inst!(c13t_sub_epoch_data_n67, SubEpochData, 67, 90, true);
-wire_inst!(c13_sub_epoch_data_n75, SubEpochData, 75, 90, true);
-wire_inst!(c13t_sub_epoch_data_n36, SubEpochData, 36, 50, false);
-// SubEpochSummary: 32 + 32 + 1 + Option<u64> + shared(Option<u64>, Option<Bytes32>)
-wire_inst!(c13_sub_epoch_summary_n67, SubEpochSummary, 67, 90, true);
-wire_inst!(c13t_sub_epoch_summary_n75, SubEpochSummary, 75, 90, true);
-wire_inst!(c13t_sub_epoch_summary_n99, SubEpochSummary, 99, 110, true);
-wire_inst!(c13_sub_epoch_summary_n107, SubEpochSummary, 107, 120, true);
+macro_rules! packed_inst {
+    ($name:ident, $t:ty, $n:expr, $unwind:expr, $fixed:expr, $must_accept:expr) => {
+        wire_harness!($name, $unwind, {
+            let ok = wire_fixed::<$t, $n>(None, $fixed);
+            if $must_accept {
+                kani::cover!(ok);
+            } else {
+                assert!(!ok, "no value has an encoding of this length");
+            }
+            kani::cover!(true);
+        });
+    };
+}
+// 75 = both packed optionals present (prefix 3: 33+1+1+8+32) or (Some, prefix 2: 33+9+1+32)
+packed_inst!(c13_sub_epoch_data_n75, SubEpochData, 75, 90, &[(1, 30), (44, 73)], true);
+packed_inst!(c13t_sub_epoch_data_n35, SubEpochData, 35, 50, &[(1, 30)], true);
+packed_inst!(c13t_sub_epoch_data_n43, SubEpochData, 43, 60, &[(1, 30)], true);
+packed_inst!(c13t_sub_epoch_data_n67, SubEpochData, 67, 90, &[(1, 30), (36, 65)], true);
+packed_inst!(c13t_sub_epoch_data_n36, SubEpochData, 36, 50, &[(1, 30)], false);
 
 // String: UTF-8 validation inside
 wire_harness!(c13t_string_n6, 36, {
@@ -311,9 +336,16 @@ pub fn with_capacity_probe<T>(n: usize) -> Vec<T> {
 fn c14_vec_length_prefix_bounded() {
     // Vec<u32> from a 10-byte buffer whose 4-byte length prefix is arbitrary (up to 2^32-1)
     let b: [u8; 10] = kani::any();
+    #[cfg(test)]
+    crate::native_alloc::MAX_SINGLE.store(0, std::sync::atomic::Ordering::Relaxed);
     let r = <Vec<u32> as Streamable>::from_bytes(&b);
-    let cap = unsafe { G.cap_seen };
-    assert!(cap * std::mem::size_of::<u32>() <= 2 * 1024 * 1024, "pre-allocation capped at 2 MiB");
+    // under Kani: the capacity handed to Vec::with_capacity (probe stub); natively (replay): the
+    // largest single allocation request seen by the counting allocator
+    #[cfg(not(test))]
+    let reserved = unsafe { G.cap_seen } * std::mem::size_of::<u32>();
+    #[cfg(test)]
+    let reserved = crate::native_alloc::MAX_SINGLE.load(std::sync::atomic::Ordering::Relaxed);
+    assert!(reserved <= 2 * 1024 * 1024, "pre-allocation capped at 2 MiB");
     let len = u32::from_be_bytes([b[0], b[1], b[2], b[3]]);
     // 6 payload bytes hold one element and a half: nothing decodes
     assert!(r.is_err());
